@@ -470,3 +470,23 @@ func (p *WidenPP) PostProcessProperties(props []*component_definition.Property, 
 	}
 	return nil, nil
 }
+
+// AliasScanner is a user-defined scanner written like the one in unittest/component/modified_inject: it
+// embeds the public tag scanner without setting Required and maps its own tag (inject:"name") to the
+// wire tag through the ExtractHandler. Points found this way are required unless their tag says otherwise.
+type AliasScanner struct {
+	processors.DefaultTagScanDefinitionRegistryPostProcessor
+}
+
+func NewAliasScanner() *AliasScanner {
+	s := &AliasScanner{}
+	s.NodeType = component_definition.PropertyTypeComponent
+	s.ExtractHandler = func(meta *component_definition.Meta, field *component_definition.Field) (string, string, bool) {
+		if v, ok := field.StructField.Tag.Lookup("inject"); ok {
+			return "wire", v, true
+		}
+		return "", "", false
+	}
+	return s
+}
+func (s *AliasScanner) Naming() string { return "verif.aliasscanner" }
